@@ -29,6 +29,8 @@ EmptyClaims == Cl(<< >>, << >>, << >>, << >>, << >>)
 
 EmptyColl == {[op |-> w, xs |-> << >>] : w \in {"slice", "vec"}}
 
+ChainLeaves == {Leaf("time", "", 0), Leaf("hasexp", "", 0), Leaf("iss", "a", 0), Leaf("aud", "ab", 0)}
+
 VARIABLES e, depth, phase
 Init == phase = "claims" /\ e = Leaf("none", "", 0) /\ depth = 0
 
@@ -39,6 +41,11 @@ Next ==
      /\ depth' = 1 /\ phase' = "grow"
   \/ /\ phase = "leaf" /\ \E x \in EmptyColl : e' = x      \* a list of no validators at all: accepts everything
      /\ depth' = 1 /\ phase' = "grow"
+  \/ /\ phase = "leaf"            \* chains as users write them: a.and_then(b).and_then(c)[.and_then(d)], every link able to be the only one that refuses
+     /\ \E l1 \in ChainLeaves, l2 \in ChainLeaves, l3 \in ChainLeaves :
+          \/ e' = [op |-> "and", a |-> [op |-> "and", a |-> l1, b |-> l2], b |-> l3]
+          \/ e' = [op |-> "and", a |-> [op |-> "and", a |-> [op |-> "and", a |-> Leaf("time", "", 0), b |-> l1], b |-> l2], b |-> l3]
+     /\ depth' = MaxDepth /\ phase' = "grow"
   \/ /\ phase = "grow" /\ depth < MaxDepth
      /\ depth' = depth + 1 /\ phase' = "grow"
      /\ \/ \E w \in {"box", "rc", "arc"} : e' = [op |-> w, a |-> e]
